@@ -2315,7 +2315,9 @@ impl<T, A: MutBumpAllocatorTyped> MutBumpVecRev<T, A> {
 
             let src = self.as_mut_ptr();
             let dst = end.as_ptr().sub(self.len);
-            ptr::copy_nonoverlapping(src, dst, self.len);
+            // The new allocation can overlap the old one: after `into_flattened` the capacity no longer
+            // covers the rest of the chunk, so a bigger range may be prepared in the same chunk.
+            ptr::copy(src, dst, self.len);
 
             self.end = end;
             self.cap = cap;
